@@ -473,6 +473,22 @@ def _build_normal(inp):
                                      f"normal/tail/{key}"))
         return iss
 
+    # one model object over time: a field reassigned after rates have been computed (fitting sigma, sweeping mu): every later
+    # answer must be the one a freshly built model with the new fields gives - rates and thresholds stay mutually inverse
+    try:
+        new = dict(dsd)
+        new.update(mu_pos=float(mu_pos) + 1.5, mu_neg=float(d.mu_neg), sigma_pos=float(d.sigma_pos), sigma_neg=float(sn) * 2.0)
+        d.mu_pos, d.sigma_neg = new["mu_pos"], new["sigma_neg"]
+        fresh_ds = _make_ds(new)
+        for fn_ in ("fnr", "fpr", "threshold_at_fnr", "threshold_at_fpr"):
+            xs_ = thr[:3] if fn_ in ("fnr", "fpr") else rates[:3]
+            a_, b_ = _apply(getattr(d, fn_), xs_, arg, [], fn_), _apply(getattr(fresh_ds, fn_), xs_, arg, [], fn_)
+            if a_ is not None and b_ is not None and not np.allclose(a_, b_, rtol=1e-12, atol=1e-12, equal_nan=True):
+                pre.append(Issue("PROPFAIL", "inverse", f"{ctx}: after mu_pos / sigma_neg were reassigned on the object, {fn_}({xs_}) = "
+                                 f"{a_} but a freshly built model with the same fields gives {b_}", "normal/history/reassigned-field"))
+                break
+    except Exception:
+        pass
     case = Case(ID, inp, [ln] + tail_lines, judge, tuple(tags), inp["_skipped"], pre)
     return case
 
